@@ -1,7 +1,7 @@
 (** * C10 — Results depend on what is declared, not on file layout or on the run (data level)
 
-    Text-level rewritings (comments, blank lines, header, BOM, white space, explicit id 0) are decided by
-    the parser correspondence of the check; the theorems here are about component lists. *)
+    The first theorems are about component lists; the text-level rewritings (comments, blank lines, header, BOM,
+    white space, CR LF, explicit id 0) are theorems about the reader (Model/Parse.v) further down. *)
 From Cteepbd Require Import Model.Balance Model.Components Proofs.ColFacts Proofs.EpFacts Proofs.DataEquiv Proofs.NormFacts.
 From Coq Require Import Permutation.
 Open Scope Qc_scope.
@@ -82,8 +82,33 @@ Proof. exact bom_same. Qed.
 Theorem C10_text_crlf : forall l, strip_cr (l ++ [13%N]) = l.
 Proof. exact strip_cr_crlf. Qed.
 
+(** writing the system id 0 explicitly or omitting it: a trimmed data line without id that the reader accepts reads
+    as the same component with "0, " in front, and the reader of data lines takes the same branch (output-energy
+    lines always carry their id; a line without values is not accepted without id: C18_empty_values_refuted) *)
+From Cteepbd Require Import Proofs.IdZero.
+Theorem C10_text_explicit_id0 : forall l rest data nd,
+  plain_line l -> no_id l -> (exists a r, break_at 44%N l = (a, Some r)) ->
+  match parse_ctype (fst (two_tags l)) with
+  | Some CONSUMO => exists e, parse_used l = POk e
+  | Some PRODUCCION => exists e, parse_prod l = POk e
+  | Some CT_AUX => exists e, parse_aux l = POk e
+  | _ => False
+  end ->
+  parse_data_lines (id0 l :: rest) data nd = parse_data_lines (l :: rest) data nd.
+Proof. exact data_line_id0. Qed.
+
+Theorem C10_text_omitted_id_is_zero : forall l e, no_id l -> parse_used l = POk e -> e_id e = 0%Z.
+Proof. exact used_no_id_is_zero. Qed.
+
+Example C10_explicit_id0_example :
+  let l := cs "CONSUMO, ACS, ELECTRICIDAD, 1.5, 2.0 # bomba" in
+  plain_line l /\ no_id l /\ parse_used (id0 l) = parse_used l /\ exists e, parse_used l = POk e.
+Proof. exact id0_example. Qed.
+
 Print Assumptions C10_text_is_read_by_trimmed_lines.
 Print Assumptions C10_text_whitespace.
 Print Assumptions C10_text_ignored_line.
 Print Assumptions C10_text_bom.
 Print Assumptions C10_text_crlf.
+Print Assumptions C10_text_explicit_id0.
+Print Assumptions C10_text_omitted_id_is_zero.
